@@ -27,8 +27,11 @@ theorem step_pFire {c : Cfg} {s : State} {d a : Nat} (hp : s.p = .timer d a) (hd
 theorem step_pStart {c : Cfg} {s : State} {kg : Bool} (hp : s.p = .lock kg) :
     ∃ s', step c s .pStart = some s' ∧ s'.p = .sync kg false ∧ s'.now = s.now ∧
       s'.target = s.bl.oldest + s.bl.nE := by
-  refine ⟨_, by simp only [step, hp], rfl, rfl, ?_⟩
-  simp [BL.syncStarting, BL.nE]
+  have h : step c s .pStart = some { s with
+      bl := s.bl.syncStarting false, p := .sync kg false,
+      target := (s.bl.syncStarting false).oldest + (s.bl.syncStarting false).nE, syncOk := false,
+      starts := if kg then (s.now, s.lastSync) :: s.starts else s.starts } := by simp only [step, hp]
+  exact ⟨_, h, rfl, rfl, by simp [BL.syncStarting, BL.nE]⟩
 
 theorem run_cons {c : Cfg} {s s' s'' : State} {a : Act} {as : List Act} (h1 : step c s a = some s')
     (h2 : run c s' as = some s'') : run c s (a :: as) = some s'' := by
@@ -82,7 +85,15 @@ theorem BL.fin_free {b b' : BL} {abs e : Nat} {r : FinRes} (hf : b.fin abs e = s
       · rw [if_pos hi] at hf; cases hf
       · rw [if_neg hi] at hf
         simp only at hf
-        split at hf <;> (injection hf with hf; injection hf with h1 h2; rw [← h1])
+        generalize (b.epochLast.length == b.syncingE ||
+          match b.epochLast.getLast? with
+          | some l => decide (l < abs)
+          | none => true) = cond at hf
+        cases cond
+        · rw [if_neg (by simp)] at hf
+          injection hf with hf; injection hf with h1 h2; rw [← h1]
+        · rw [if_pos rfl] at hf
+          injection hf with hf; injection hf with h1 h2; rw [← h1]
 
 /-- The free list only grows in `NotifyPersistentStateWritten`. -/
 theorem free_subset_of_Step {c : Cfg} {s s' : State} {a : Act} (h1 : Inv1 s) (hs : Step c s a s')
